@@ -27,7 +27,7 @@ structure Cfg where
 inductive PyE where
   | name (n : String)                        -- bare name (`int`, `None`, `unknown`, …)
   | attr (q n : String)                      -- `q.n`
-  | attr2 (q o n : String)                   -- `q.o.n`
+  | attr2 (q o n : String)                   -- `q.o.n`, or `o.n` when q is empty (a class of the same module)
   | quoted (n : String)                      -- `'Foo'` (forward reference)
   | sub (head : PyE) (args : List PyE)       -- `head[a, b]`
   | lit (text : String) (ok : Bool)          -- `%#v` text; ok = it is a Python literal
@@ -237,7 +237,7 @@ def dfltFor (cfg : Cfg) (ss : Schemas) (cur : String) : Nat → Ty → Option Py
             | [] => some (.crash "default: enum without values")
             | v0 :: _ =>
               let member := (enumMemberFor cfg m.dflt vs).getD (upperSnake cfg v0.name)
-              some (if modAlias cur p == "" then .attr (Passes.ucc on) member else .attr2 (modAlias cur p) (Passes.ucc on) member))
+              some (.attr2 (modAlias cur p) (Passes.ucc on) member))
         | some { ty := .disj bs i dm, .. } => dfltFor cfg ss cur fuel (.disj bs i dm)
         | some { ty := .scalar _ v _ _, .. } =>
           if !Val.isNil v then some (qualified (modAlias cur p) (Passes.ucc n)) else some (.call (qualified (modAlias cur p) (Passes.ucc n)))
@@ -383,7 +383,7 @@ mutual
 def exprAliases : PyE → List String
   | .name _ => []
   | .attr q _ => [q]
-  | .attr2 q _ _ => [q]
+  | .attr2 q _ _ => if q == "" then [] else [q]
   | .quoted _ => []
   | .sub h as => exprsAliases as ++ exprAliases h
   | .lit .. => []
